@@ -410,6 +410,11 @@ def measure(D):
         elif kind == "REACTION_PRESSURE":
             if len(R.nums(e.get("pressures"))) > 1 or int(e.get("count") or 0) > 1:
                 sub.add("pressure_multi_step")
+        if kind in ("REACTION", "KINETICS", "REACTION_TEMPERATURE", "REACTION_PRESSURE"):
+            # explicit lists long enough for continuation lines in the dump (5 numbers on the first line, 6 on the others)
+            for opt in ("steps", "temps", "pressures"):
+                if len(R.nums(e.get(opt))) >= 6:
+                    sub.add("%s_list>=6" % kind.lower())
     return kinds, sub
 
 
